@@ -59,8 +59,13 @@ func (o ClientOp) String() string {
 type ClientScript struct {
 	LMTP     bool
 	StartTLS bool // create the client with NewClientStartTLS
-	Ops      []ClientOp
-	Split    []int // the transport re-cuts the client's writes into these sizes, cycled
+	// Via selects how the client comes to be: 0 NewClient*/NewClientStartTLS on
+	// the connection, 1 DialStartTLS through the dial hook, 2 the package-level
+	// SendMail through the dial hook (Mail/Rcpt/body taken from the first
+	// opSendMail op).
+	Via   int
+	Ops   []ClientOp
+	Split []int // the transport re-cuts the client's writes into these sizes, cycled
 }
 
 // OpResult is what one client op returned.
@@ -137,6 +142,28 @@ func (d *clientDriver) run(offer func(net.Conn) bool) {
 	}
 	var c *smtp.Client
 	switch {
+	case cs.Via == 1:
+		smtp.VerifDial = func(network, addr string) (net.Conn, error) { return conn, nil }
+		var err error
+		c, err = smtp.DialStartTLS("sim.test:25", d.tlsCfg)
+		smtp.VerifDial = nil
+		if err != nil {
+			ch.NewErr = err.Error()
+			d.finish(nil)
+			return
+		}
+	case cs.Via == 2:
+		smtp.VerifDial = func(network, addr string) (net.Conn, error) { return conn, nil }
+		op := cs.Ops[0]
+		err := smtp.SendMail("sim.test:25", nil, op.Arg, op.To, &partReader{b: op.Body})
+		smtp.VerifDial = nil
+		if err != nil {
+			ch.NewErr = err.Error()
+		} else {
+			ch.NewErr = "<nil>"
+		}
+		d.finish(nil)
+		return
 	case cs.StartTLS:
 		var err error
 		c, err = smtp.NewClientStartTLS(conn, d.tlsCfg)
